@@ -1,6 +1,6 @@
 from props import sched_common
 
-THEOREMS = []
+THEOREMS = ["Dispenso.Sched." + t for t in ['C03_rings_inside_always', 'C03_rings_inside', 'C03_push_outside_rejected', 'C03_shrink_over_work_rejected']]
 # (flavour, scenarios in the quick tier): 0 mixed, 1 without resize, 2 resize-heavy
 FLAVOURS = [(2, 400)]
 
